@@ -886,21 +886,25 @@ class _SpyList(list):
         _SpyList.captured = list(self)
 
 
+# documented defaults of the extraction entry points: the default key list, no all-keys retry
+DOC_DEFAULTS = {"xor_keys": None, "all_xor_keys": False}
+
+
 def impl(stream, line):
     w = line.split(" ")
     if stream in ("ext", "extpi", "spec"):
         kind, B, ak, keys, data = w[1], int(w[2]), w[3] == "T", parse_keys(w[4]), C.unhx(w[5])
         with _Buf(B):
             if kind == "b":
-                bc = BeaconConfig.from_bytes(data, xor_keys=keys, all_xor_keys=ak)
+                bc = BeaconConfig.from_bytes(data, **C.drop_defaults(line, DOC_DEFAULTS, xor_keys=keys, all_xor_keys=ak))
             elif kind[0] == "F":
                 fobj = io.BytesIO(data)
                 fobj.seek(int(kind[1:] or "0"))
-                bc = BeaconConfig.from_file(fobj, xor_keys=keys, all_xor_keys=ak)
+                bc = BeaconConfig.from_file(fobj, **C.drop_defaults(line, DOC_DEFAULTS, xor_keys=keys, all_xor_keys=ak))
             else:
                 path = _tmpfile(data)
                 try:
-                    bc = BeaconConfig.from_path(path, xor_keys=keys, all_xor_keys=ak)
+                    bc = BeaconConfig.from_path(path, **C.drop_defaults(line, DOC_DEFAULTS, xor_keys=keys, all_xor_keys=ak))
                 finally:
                     os.unlink(path)
         if bc.guardrails is not None:
